@@ -365,3 +365,126 @@ def alpha_helices(ctx, case):
 
 
 contract("C15", FILE, "calculate_alpha_helices", cases=HELIX_CASES, lang="c", replay="dssp", covers=["finished"], max_paths=60000)(alpha_helices)
+
+
+# =====================================================================================================
+# sheets: calculate_beta_sheets on chains of fixed length; the bridge relation is decided pair by pair on the path
+def sheet_reference(n, chain, skip, bridge_type):
+    """ladders, bulges, E/B -- written from Kabsch & Sander 1983 and the DSSP ladder rules:
+       bridges (i, j), i < j - 2, both complete;  a ladder is a maximal run of consecutive bridges of one type
+       ((i+1, j+1) parallel, (i+1, j-1) antiparallel);  two ladders of one type on unbroken strands are joined over a bulge when the
+       gap is at most 4 residues on one strand and at most 1 on the other (the second ladder further along both strands: higher j
+       for parallel, lower j for antiparallel; ladders that overlap on the first strand are not joined);  ladders are scanned in
+       order of (chain, first residue), a joined ladder keeps scanning;  E for residues spanned by a ladder of >= 2 bridges,
+       B for a single bridge, E wins."""
+    NONE, PAR, ANTI = "none", "parallel", "antiparallel"
+    ladders = []
+    for i in range(1, n - 4):
+        for j in range(i + 3, n - 1):
+            t = bridge_type(j, i)
+            if t == NONE or skip[i] or skip[j]:
+                continue
+            for lad in ladders:
+                if lad["type"] != t or lad["i"][-1] + 1 != i:
+                    continue
+                if t == PAR and lad["j"][-1] + 1 == j:
+                    lad["i"].append(i), lad["j"].append(j)
+                    break
+                if t == ANTI and lad["j"][0] - 1 == j:
+                    lad["i"].append(i), lad["j"].insert(0, j)
+                    break
+            else:
+                ladders.append(dict(type=t, i=[i], j=[j], ci=chain[i], cj=chain[j]))
+    ladders.sort(key=lambda L: (L["ci"], L["i"][0]))  # stable
+    a = 0
+    while a < len(ladders):
+        b = a + 1
+        while b < len(ladders):
+            A, B = ladders[a], ladders[b]
+            ibi, iei, jbi, jei = A["i"][0], A["i"][-1], A["j"][0], A["j"][-1]
+            ibj, iej, jbj, jej = B["i"][0], B["i"][-1], B["j"][0], B["j"][-1]
+            same_strands = chain[min(ibi, ibj)] == chain[max(iei, iej)] and chain[min(jbi, jbj)] == chain[max(jei, jej)]
+            gap_i = ibj - iei - 1
+            overlap = iei >= ibj and ibi <= iej
+            ok = A["type"] == B["type"] and same_strands and gap_i <= 4 and not overlap
+            if ok:
+                if A["type"] == PAR:
+                    gap_j = jbj - jei - 1
+                    link = jbj > jbi and ((gap_j <= 4 and gap_i <= 1) or gap_j <= 1)
+                else:
+                    gap_j = jbi - jej - 1
+                    link = jbj < jbi and ((gap_j <= 4 and gap_i <= 1) or gap_j <= 1)
+            if ok and link:
+                A["i"] = A["i"] + B["i"]
+                A["j"] = (A["j"] + B["j"]) if A["type"] == PAR else (B["j"] + A["j"])
+                del ladders[b]
+                continue
+            b += 1
+        a += 1
+    code = [" "] * n
+    for L in ladders:
+        ss = "E" if len(L["i"]) > 1 else "B"
+        for strand in (L["i"], L["j"]):
+            for r in range(strand[0], strand[-1] + 1):
+                if code[r] != "E":
+                    code[r] = ss
+    return code
+
+
+# (name, n, chain ids, skip, candidate pairs (i, j) that MAY be bridges -- every other pair is not)
+_par_bulge = [(1, 9), (2, 10), (7, 12), (8, 13), (3, 11), (6, 12)]
+_anti = [(1, 14), (2, 13), (3, 12), (7, 10), (8, 9 + 3), (5, 10)]
+SHEET_CASES = [
+    ("all-pairs-n8", 8, [0] * 8, [0] * 8, None),
+    ("parallel-bulge-gap4/1-n16", 16, [0] * 16, [0] * 16, _par_bulge),
+    ("parallel-gap5-n17", 17, [0] * 17, [0] * 17, [(1, 10), (2, 11), (8, 13), (9, 14), (7, 13)]),
+    ("antiparallel-bulge-n16", 16, [0] * 16, [0] * 16, _anti),
+    ("two-chains-n14", 14, [0] * 7 + [1] * 7, [0] * 14, [(1, 8), (2, 9), (3, 10), (5, 12), (4, 11), (2, 5)]),
+    ("incomplete-partner-n12", 12, [0] * 12, [0, 0, 0, 0, 0, 0, 0, 1, 0, 0, 0, 0], [(1, 7), (2, 8), (2, 6), (3, 7), (1, 9), (3, 9)]),
+]
+
+
+def beta_sheets(ctx, case):
+    from mdvc.cinterp import StdVector
+
+    name, n, chain, skip, cand = case
+    ex = ctx.ex
+    c = ctx.load_c(FILE, ["calculate_beta_sheets"], **GEOM)
+    ctx.load_records(FILE, ["Bridge"], include=GEOM["include"])
+    chain_r, hb_r = Region("chain_ids", "int"), Region("hbonds", "int")
+    chain_r.local = list(chain)
+    NONE, PAR, ANTI = enum_id("BRIDGE_NONE"), enum_id("BRIDGE_PARALLEL"), enum_id("BRIDGE_ANTIPARALLEL")
+    decided = {}
+
+    def bridge_model(interp, args):
+        a, b = (x if isinstance(x, int) else ex.concrete_int(term(x)) for x in args[:2])
+        key = (a, b)
+        if key not in decided:
+            if cand is not None and (b, a) not in cand:
+                decided[key] = "none"
+            else:
+                # the contract of _residue_test_bridge: one of three values, decided here for this path (all 3^k tables are explored)
+                br = z3.Int(f"BR({a},{b})")
+                ex.assume(z3.Or(br == NONE, br == PAR, br == ANTI))
+                decided[key] = "none" if ex.branch(br == NONE) else ("parallel" if ex.branch(br == PAR) else "antiparallel")
+        return {"none": NONE, "parallel": PAR, "antiparallel": ANTI}[decided[key]]
+
+    c.call_models["_residue_test_bridge"] = bridge_model
+    sec = StdVector([enum_id("SS_LOOP")] * n)
+    sk = StdVector(list(skip))
+    out = ctx.ccall("calculate_beta_sheets", Ptr(chain_r, 0), Ptr(hb_r, 0), sk, n, sec)
+    ctx.ensure("returns-normally", out.exc is None)
+    if out.exc is not None:
+        return
+    ctx.cover("finished")
+    want = sheet_reference(n, chain, skip, lambda a, b: decided.get((a, b), "none"))
+    names = {enum_id("SS_LOOP"): " ", enum_id("SS_STRAND"): "E", enum_id("SS_BETABRIDGE"): "B"}
+    got = [names.get(v if isinstance(v, int) else ex.concrete_int(term(v)), "?") for v in sec.items]
+    if any(t != "none" for t in decided.values()):
+        ctx.cover("some-bridge")
+    ctx.ensure("E/B-assignment=ladders-and-bulges-of-the-DSSP-rules-for-this-bridge-table", z3.BoolVal(got == want))
+    ctx.ensure("skip-mask-untouched", z3.BoolVal(sk.items == skip))
+
+
+for _case in SHEET_CASES:
+    contract("C15", FILE, "calculate_beta_sheets", cases=[_case], lang="c", replay="dssp", covers=["finished", "some-bridge"], max_paths=5000)(beta_sheets)
